@@ -90,6 +90,11 @@ class Ctx:
     def arg(self, name: str) -> Any:
         return self.args[name]
 
+    def field(self, name: str, old: bool = False) -> Any:
+        """Field of the object under construction (contracts of __post_init__)."""
+        uc = self.args["self"]
+        return uc.pending(self.old if old else self.state)[name]
+
     def attr(self, obj: SV, name: str, old: bool = False) -> SV:
         return self.ex.spec_attr(obj, name, self.old if old else self.state)
 
@@ -121,7 +126,14 @@ class Registry:
         self.replay: dict[str, Callable] = {}
         self.witness_classes: dict[str, Callable] = {}
         self.modules_loaded: set[str] = set()
-        self.exec_hooks: dict[str, Callable] = {}  # executor hooks contributed by contract modules
+        self.exec_hooks: dict[str, list[Callable]] = {}  # executor hooks contributed by contract modules
+        self.lemmas: dict[str, Callable] = {}  # spec-level lemma obligations: name -> fn(ex) -> (hyps, goal)
+
+    def add_hook(self, name: str, fn: Callable) -> None:
+        """Contribute an executor hook; hooks of one name are tried in order until one returns non-None."""
+        lst = self.exec_hooks.setdefault(name, [])
+        if fn not in lst:
+            lst.append(fn)
 
     def load(self, *modules: str) -> "Registry":
         """Load sidecar contract modules (idempotent)."""
